@@ -313,7 +313,7 @@ func (x *exec) reentryCase(p reentryProg, depth int, cfg reentryLimits) {
 		}
 	}
 	c.NonTrivial(vp.Hash("reentry", x.variant, p.name, itoa(depth), cfg.name))
-	if c.WantSample() && res.kind == kError {
-		c.Sample(map[string]interface{}{"stage": "reentry", "program": src, "limits": cfg.name, "outcome": res.kind, "error": res.errMsg})
+	if x.wantSample() && res.kind == kError {
+		x.sample(map[string]interface{}{"stage": "reentry", "program": src, "limits": cfg.name, "outcome": res.kind, "error": res.errMsg})
 	}
 }
